@@ -41,6 +41,9 @@ CHECKS = {
  "C17": ("C objects (tokenizer, constraint, matcher) created through the extern \"C\" functions from the same token table are driven in lock-step with independently built Rust Constraint/Matcher twins: masks word for word, commit results, validate counts, rollback, ff tokens, flags and error agreement. llg_matcher_compute_mask_into and llg_par_compute_mask write into canary-guarded buffers of 0, 1, W-1, W, W+1, 2W and W+1000 words; a poisoning global allocator (0xA5 tail on every heap block, checked on free) makes out-of-bounds reads of the engine's mask visible and flags out-of-bounds writes.",
          "the C tokenizer uses the approximate greedy tokenizer; OOB reads beyond the 64-byte poisoned tail depend on heap contents",
          "property-based differential testing (C API vs Rust API) with guarded buffers and a poisoning allocator"),
+ "C18": ("Random call sequences mixing legal and illegal calls against Matcher and Constraint (with/without ff_tokens) over generated regex grammars, judged by a {running, stopped, failed} model whose 'complete' / 'extensible' come from the reference DFA: stop exactly when the text is complete and not extensible or EOS was committed while accepting, every Ok result agrees with the reference, after stop only EOS set / zero / errors, failed matchers stay failed with the same message; StopController runs (stop tokens, overlapping multi-byte stop strings, stop regex, text cut at arbitrary byte positions, specials) against a reference scan: text up to a match start of the earliest-ending stop, prefix before, bounded withholding, nothing after.",
+         "for the sampling loop only the immediate result of the first illegal call is judged; stop strings avoid regex metacharacters; any overlapping candidate is accepted",
+         "stateful / model-based property testing (state machine model + reference DFA; reference scan for the stop controller)"),
  "C19": ("Vocabularies with special tokens and plain look-alike tokens; sequence templates mixing literals, a class containing < | >, and token references (<name>, <[id]>, ranges, negated ranges, <[*]>) with position tracking by the generator: at reference positions the mask must equal exactly the denoted id set (validate and commit agreeing), at text positions no special/marker/empty token may be allowed or accepted; tokenisation of names in text vs marked names is checked per vocabulary.",
          "reference sets are computed by the harness from the documented range semantics; EOS ids at text positions follow C01's accepting clause",
          "property-based testing with generator-side position tracking (validity predicate per state)"),
